@@ -22,6 +22,8 @@ def main(tier):
         replay.run_cfg(chk, module, consts, label, invariants=inv)
     keyword_laws(chk, tier)
     trace_part(chk, tier)
+    from harness import suite
+    suite.part(chk, 'C02')      # the repository's own test-suite as a trace corpus
     return chk.finish()
 
 
